@@ -84,7 +84,9 @@ def rule_fwd_config(ctx: Ctx) -> RuleResult:
         first = cands[1] if len(cands) > 1 else cands[0]
         if isinstance(first, ast.Name) and first.id == par:
             ds = flow.defs_reaching(at.id, par) if at else []
-            ok = bool(ds) and all(d.kind == "param" for d in ds)
+            # the argument itself, or the argument completed by a default (`config = config or <default>`)
+            ok = bool(ds) and all(d.kind == "param" or (d.kind == "assign" and isinstance(d.value, ast.BoolOp) and isinstance(d.value.op, ast.Or)
+                                                         and isinstance(d.value.values[0], ast.Name) and d.value.values[0].id == par) for d in ds)
         if ok:
             res.ok(f"{c.name}.{attr}", f"`{norm(st)}`: the instance keeps the configuration it was given")
         else:
@@ -186,15 +188,27 @@ def _default_config_choice(ctx: Ctx, res: RuleResult):
 
     name_p = f.params[0]
     hits = 0
-    for st in own_nodes(f.node):
-        if not (isinstance(st, ast.Assign) and len(st.targets) == 1 and norm(st.targets[0]) == name_p):
-            continue
+    assigns = sorted([st for st in own_nodes(f.node) if isinstance(st, ast.Assign) and len(st.targets) == 1 and norm(st.targets[0]) == name_p],
+                     key=lambda st: (st.lineno, st.col_offset))
+    seq = []  # what the name may become, in order of preference
+    bad = None
+    for st in assigns:
         hits += 1
         v = st.value
-        good = isinstance(v, ast.BoolOp) and isinstance(v.op, ast.Or) and "default_path_config" in norm(v.values[0]) and (name_p, False) in facts_at(ctx, f, st)
-        if good:
+        ops = list(v.values) if isinstance(v, ast.BoolOp) and isinstance(v.op, ast.Or) else [v]
+        fs = facts_at(ctx, f, st)
+        if norm(ops[0]) == name_p:
+            ops = ops[1:]  # `name = name or ...`: only when there is none yet
+        elif (name_p, False) not in fs:
+            bad = st
+        seq += [norm(o) for o in ops]
+    if hits:
+        i_def = next((i for i, t in enumerate(seq) if "default_path_config" in t), None)
+        i_first = next((i for i, t in enumerate(seq) if "path_configs" in t and "default_path_config" not in t), None)
+        if bad is None and i_def is not None and (i_first is None or i_def < i_first):
             res.ok("get_path_config default", "only when no name is given: conf.default_path_config, else the first configured one")
         else:
+            st = bad or assigns[0]
             res.violation([f.qualname, "default choice"], f"get_path_config: `{norm(st)[:80]}` is not `default_path_config or <first configured>` under "
                                                           f"'no name given': the default configuration is ignored or a given name is replaced",
                           f.relpath, st.lineno)
